@@ -1,6 +1,6 @@
 """C02: each unit runs exactly the first command matching its effective header."""
 import json
-import lib, parser_common as pc, suite_traces
+import lib, parser_common as pc, suite_traces, composition
 
 def nontrivial(sc):
     hs = sc['meta']['hdrs']
@@ -21,7 +21,8 @@ def run(pid, tier):
     if tier == 'thorough':
         obs = pc.execute(rep, scen[::7], 'noinfo', 'C02n')
         pc.validate(rep, 'C02', scen[::7], obs, 'C02-noinfo', info=0)
-    suite_traces.validate(rep, 'C02:')      # hook traces of the repository's own test programs
+    suite_traces.validate(rep, 'C02:')
+    composition.validate(rep, 'C02', tier)   # random messages of a minimal instrument against Scpi.tla      # hook traces of the repository's own test programs
     nt = [s for s in scen if nontrivial(s)]
     rep.cov['distinct_nontrivial'] = len(nt)
     rep.cov['exhaustive'] = True
